@@ -318,6 +318,21 @@ func SetAllocPolicy(limitBytes int, candidates ...int) {
 // SymbolicClock: see gosym (time.Now becomes an arbitrary non-decreasing instant). Natively the real clock runs.
 func SymbolicClock() {}
 
+// Cost runs f and returns what it cost in "steps": SSA instructions under gosym; natively the smallest elapsed time of
+// three runs divided by 50 ns (compiled code retires more than one SSA instruction per 50 ns, so a bound that holds in
+// steps under gosym holds natively with a wide margin, while exponential blow-ups exceed it in both). f must be idempotent.
+func Cost(f func()) int {
+	best := time.Duration(1 << 62)
+	for i := 0; i < 3; i++ {
+		t0 := time.Now()
+		f()
+		if d := time.Since(t0); d < best {
+			best = d
+		}
+	}
+	return int(best/(50*time.Nanosecond)) + 1
+}
+
 // ClockTick lets real time pass in a native replay (1.1 s, so that readings with one-second resolution differ); under gosym
 // the symbolic clock may advance by any amount between any two readings anyway.
 func ClockTick() { time.Sleep(1100 * time.Millisecond) }
